@@ -185,6 +185,7 @@ func SimC13(c *CheckCtx, i int, r *Rng) error {
 	for k := 0; k < n; k++ {
 		sc.Variants = append(sc.Variants, Variant{Name: fmt.Sprintf("sched:shuf:%d", k), Ops: []Op{{Kind: "run", Run: &RunOp{Args: args, Sched: schedOf("shuf", r.U64())}}}})
 	}
+	sc.Variants = append(sc.Variants, Variant{Name: "sched:asc:driver-fails-once", Ops: []Op{{Kind: "run", Run: &RunOp{Args: args, Sched: schedOf("asc", 0)}}}})
 	sc.Variants = append(sc.Variants, Variant{Name: "sched:asc:second-checkout", Ops: []Op{{Kind: "run", Run: &RunOp{Args: args, Sched: schedOf("asc", 0)}}}})
 	if r.P(0.25) {
 		// an entry the directory hash cannot read (an editor's lock file): loading must not care
